@@ -318,8 +318,8 @@ theorem handler_model_system_reaches_template (mm : List Msg) (s : Bytes) (r0 : 
     · rfl
 
 /-- the template-level function is the generic one instantiated with the executed template -/
-theorem templ_ok_generic {tv : TVar} {t : List Node} {mode : Nat} {p : Bytes}
-    (h : chatPromptT cfg tv t mode msgs = .ok q n sys ret imgs p) :
+theorem templ_ok_generic {tv : TVar} {t : List Node} {mode : Nat} {p : Bytes} {tf : Option Nat}
+    (h : chatPromptT cfg tv t mode msgs tf = .ok q n sys ret imgs p) :
     ∃ cost bad, chatPrompt cfg cost bad msgs = .ok q n sys ret imgs ∧
       execute tv t ((sys ++ ret).map toRMsg) = .ok p := by
   unfold chatPromptT at h
